@@ -68,6 +68,12 @@ Observe == /\ IsExp /\ ph = "observe"
            /\ bad' = bad \cup
                 (IF E.ev = "CrashExp" /\ ~(E.synced = disk.synced /\ E.matches = disk.synced /\ E.syncverOK /\ E.killed)
                    THEN {<<l, "C02", "database after SIGKILL is not exactly the blocks up to the recorded height", E.h, E.k>>} ELSE {})
+                \cup
+                \* a process that survives the fault goes on with the height it holds in memory (mem): the specification's
+                \* FailInBlock / FailInsertSynced / FailCommit leave mem = disk.synced, so the next blocks it commits are
+                \* disk.synced+1, +2 in order; the database it leaves behind must be exactly those whole blocks
+                (IF E.ev = "FaultExp" /\ "contOK" \in DOMAIN E /\ ~E.contOK
+                   THEN {<<l, "C10", "the process that met the fault went on with a wrong height / left part of a block behind (database after two more blocks is not a whole-block prefix)", E.h, E.k>>} ELSE {})
            /\ ph' = "resume" /\ UNCHANGED l
 
 \* resume to the tip with the specification's actions, one block per step
